@@ -156,12 +156,12 @@ Proof.
   intros I r. subst r. unfold remove_all_instances. cbv zeta. cbn [fst snd].
   set (keep := filter (fun y => negb (Z.eqb y x)) (abs q)).
   assert (HL : length (filter (fun y => Z.eqb y x) (abs q)) + length keep = cnt q).
-  { subst keep. rewrite <- (abs_length q) at 3. apply (filter_split_length (fun y => Z.eqb y x)). }
+  { subst keep. rewrite <- (abs_length q). apply (filter_split_length (fun y => Z.eqb y x)). }
   destruct (write_from_spec ow keep q 0 I ltac:(lia)) as (J1&J2&_).
   pose proof (write_from_abs ow keep q 0 I ltac:(lia)) as J3.
   set (q2 := write_from q 0 keep) in *.
   destruct (iter_remove_tail sq ow (cnt q - length keep) q2 J1 ltac:(lia)) as (K1&K2&_).
-  split; [assumption|]. split; [|lia].
+  rewrite abs_length. split; [assumption|]. split; [|lia].
   rewrite K2, J3. cbn [firstn app Nat.add].
   replace (cnt q2 - (cnt q - length keep)) with (length keep + 0) by lia.
   rewrite firstn_app_2. cbn [firstn]. apply app_nil_r.
@@ -193,7 +193,7 @@ Qed.
 (* the copy-into-the-gap branch: after k steps *)
 Lemma normalize_gap_steps ow q start k :
   head q < qsize q -> cnt q <= qsize q -> k <= cnt q ->
-  start + cnt q <= head q -> head q + cnt q > qsize q ->
+  start + cnt q <= head q -> head q + cnt q > qsize q -> head q + cnt q <= qsize q + start ->
   let step := fun g i =>
        let v := getu q i in
        let g1 := set_raw g (start + i) v in
@@ -205,12 +205,12 @@ Lemma normalize_gap_steps ow q start k :
     if (start <=? s) && (s <? start + k) then getu q (s - start)
     else if ow && (extern q s <? k) then dflt else nth s (arr q) dflt.
 Proof.
-  intros Hh Hc Hk Hgap Hwrap step. induction k as [|k IH].
+  intros Hh Hc Hk Hgap Hwrap Hst step. induction k as [|k IH].
   - cbn [seq fold_left]. repeat split. intros s Hs. rewrite andb_false_r. dif; fin.
   - intros g. subst g. rewrite seq_S, fold_left_app. cbn [fold_left Nat.add].
     destruct (IH ltac:(lia)) as (H1 & H2 & H3).
     set (g := fold_left step (seq 0 k) q) in *.
-    unfold step at 1. cbv zeta.
+    unfold step. cbv beta zeta.
     assert (A : forall s, s < qsize q ->
               nth s (arr (set_raw g (start + k) (getu q k))) dflt =
               if s =? start + k then getu q k else nth s (arr g) dflt).
@@ -220,8 +220,8 @@ Proof.
       intros s Hs. cbn [arr set_raw]. rewrite nth_upd, upd_length.
       change (nth s (upd (arr g) (start + k) (getu q k)) dflt)
         with (nth s (arr (set_raw g (start + k) (getu q k))) dflt).
-      rewrite A, H3 by assumption.
-      unfold extern, intern, qsize in *. cbv zeta. cbn [andb]. dif; fin.
+      rewrite A, H3 by assumption. clear IH H3 A.
+      unfold extern, intern, qsize in *. cbv zeta. cbn [andb]. difh; fin.
     + split; [exact H1|]. split; [rewrite !qsize_set_raw; exact H2|].
       intros s Hs. rewrite A, H3 by assumption. cbn [andb]. dif; fin.
 Qed.
@@ -240,7 +240,7 @@ Proof.
   assert (Hwrap : head q + cnt q > qsize q) by (unfold intern in Ht; cbv zeta in Ht; difh; lia).
   assert (Htl : tail q = head q + cnt q - 1 - qsize q) by (unfold intern in Ht; cbv zeta in Ht; difh; lia).
   assert (Hgap : tail q + 1 + cnt q <= head q) by lia.
-  destruct (normalize_gap_steps ow q (tail q + 1) (cnt q) Hh Hn ltac:(lia) Hgap Hwrap) as (H1 & H2 & H3).
+  destruct (normalize_gap_steps ow q (tail q + 1) (cnt q) Hh Hn ltac:(lia) Hgap Hwrap ltac:(lia)) as (H1 & H2 & H3).
   cbv zeta in H1, H2, H3.
   set (g := fold_left _ (seq 0 (cnt q)) q) in *.
   set (q' := mkQ (st g) (arr g) (cnt q) (tail q + 1) (tail q + 1 + cnt q - 1)).
